@@ -688,18 +688,23 @@ def run_reference(case, N=None, B=None):
     freq = B.sched.get("scheduler_frequency", 1) if B.sched else 1
     N = case["N"] if N is None else N
     rec = dict(traj=[snapshot(B)], tens=[tensor_snapshot(B)], losses=[])
-    for j in range(N):
-        opt.zero_grad()
-        total = 0
-        for c, cond in zip(case["train"], B.train):
-            # the weight the HARNESS configured, never a value read back from the library object
-            total = total + float(Fraction(c["weight"])) * cond(device="cpu", iteration=j)
-        total.backward()
-        opt.step()
-        if sched is not None and (j + 1) % freq == 0:
-            sched.step()
-        rec["traj"].append(snapshot(B)); rec["tens"].append(tensor_snapshot(B))
-        rec["losses"].append(float(total))
+    try:
+        for j in range(N):
+            opt.zero_grad()
+            total = 0
+            for c, cond in zip(case["train"], B.train):
+                # the weight the HARNESS configured, never a value read back from the library object
+                total = total + float(Fraction(c["weight"])) * cond(device="cpu", iteration=j)
+            total.backward()
+            opt.step()
+            if sched is not None and (j + 1) % freq == 0:
+                sched.step()
+            rec["traj"].append(snapshot(B)); rec["tens"].append(tensor_snapshot(B))
+            rec["losses"].append(float(total))
+    except RuntimeError as e:
+        # only seen when objects are re-used across fits: a DeepONet caches its branch evaluation under the
+        # iteration number, a second loop that starts again at the same number hits the stale autograd graph
+        rec["error"] = f"{type(e).__name__}: {str(e)[:120]}"
     rec["opt"], rec["lr"] = opt_state_of(opt, B)
     return B, rec
 
@@ -908,6 +913,9 @@ def judge(rep, case, B, rec, Bref, ref, reply):
     if "error" in rec:
         rep.fail(f"trainer.fit raised {rec['error']} on a valid set-up", case)
         return
+    if "error" in ref:
+        rep.count("reference-loop-raises(not judged)")
+        return
     # ---- oracle 1: the reference loop of the property text, bit-exact after every step
     d = first_tensor_diff(rec["tens"], ref["tens"])
     if d is not None:
@@ -1110,6 +1118,8 @@ def run_history(case):
         R.opt_class, R.opt_args, R.lr, R.sched = rcls, rargs, rlr, rsched
         _, ref = run_reference(sc, B=R)
         res["stages"].append((sc, rec, ref))
+        if "error" in rec or "error" in ref:
+            break
     res["B"], res["R"] = B, R
     return res
 
@@ -1119,6 +1129,10 @@ def judge_history(rep, case, res):
         st = case["stages"][si]
         what = (f"fit number {si + 1} of {len(case['stages'])} in one process (setting: {st['mode']}, {st['opt']['kind']}, lr={st['opt']['lr']}, "
                 f"{'fresh objects' if st['rebuild'] or si == 0 else 'same condition/model objects as before'}): ")
+        if "error" in ref:
+            # the plain loop itself cannot be run on these re-used objects (stale DeepONet branch cache): no reference
+            rep.count("history:reference-loop-raises(" + ("solver too" if "error" in rec else "solver trains") + ")")
+            return
         if "error" in rec:
             rep.fail(what + f"trainer.fit raised {rec['error']}", case)
             return
